@@ -27,3 +27,26 @@ Fixpoint setdefault_append {A : Type} (d : list (string * list A)) (k : string) 
 (* extension.fields.get(key, default) read as a string / as an integer (the model's reading of binding fields, as in Dbc.DbcModel) *)
 Definition impl_str_default (im : simpl) (k default : string) : string := match impl_str im k with Some s => s | None => default end.
 Definition impl_int_default (im : simpl) (k : string) (default : Z) : Z := match impl_int im k with Some z => z | None => default end.
+
+(* ---------- create_can_signals ---------- *)
+(* CanSignal(...) as create_can_signals builds it (before __post_init__) *)
+Record csignal := { cs_name : string; cs_start_bit : Z; cs_bit_length : Z; cs_data_type : string; cs_scalar_type : string;
+                    cs_byte_order : string; cs_signed : bool; cs_is_multiplexer : bool; cs_multiplexer_ids : option (list Z);
+                    cs_multiplexer_signal : option string }.
+
+(* piece.type.name: "u8", "i12", "f32", "f64", "str", or the name of the enum / struct *)
+Definition piece_type_name (p : piece) : string :=
+  match pty p with
+  | SU n => "u" ++ dec_str n
+  | SI n => "i" ++ dec_str n
+  | SF32 => "f32" | SF64 => "f64" | SStr => "str"
+  | SEnumRef s | SStructRef s => s
+  | SArr _ _ => "Array" | SDyn _ => "DynamicArray" | SOpt _ => "Optional"
+  end.
+
+(* piece.extended_data.get(k, "<other>") == v   for a string v *)
+Definition ext_str_is (p : piece) (k v : string) : bool :=
+  match ext_str p k with Some s => String.eqb s v | None => false end.
+
+(* bool(x) for x a string or None *)
+Definition truthy_ostr (o : option string) : bool := match o with Some s => negb (String.eqb s "") | None => false end.
